@@ -84,3 +84,47 @@ def standin_densities(tier, seed):
 
 
 STANDINS = [standin_densities]
+
+
+def standin_joint_wiring(tier, seed):
+    """the joint model's event attachment, through the model's own variable graph: per individual, minus the log-density of a
+    right-censored Weibull with the documented re-parametrisation -- scale nu exp(-(xi_i + shift_i / rho)), time T_i - tau_i, the
+    hazard term only for observed events -- recomputed here in numpy from the state's own nu, rho, xi, tau, survival shifts and events."""
+    import numpy as np
+    from .c10 import joint_state
+    from .common import tensor_value
+    violations, evals, distinct, samples = [], 0, set(), []
+    for rep in range(2 if tier == "quick" else 10):
+        m, st, ds = joint_state(seed + rep)
+        st = st.clone(disable_auto_fork=True)
+        g = torch.Generator().manual_seed(seed + rep)
+        ev = st["event"]
+        T, obs = ev.value[:, 0].double(), ev.weight[:, 0].bool()
+        # reference times strictly before every event age, so that every individual is at risk (no penalty branch)
+        st["tau"] = (T - 2.0 - 5.0 * torch.rand(T.shape, generator=g, dtype=torch.float64)).reshape(-1, 1).to(st["tau"].dtype)
+        st["xi"] = (0.4 * torch.randn(T.shape, generator=g, dtype=torch.float64)).reshape(-1, 1).to(st["xi"].dtype)
+        if "sources" in st.dag:
+            st["sources"] = torch.randn(st["sources"].shape, generator=g).to(st["sources"].dtype)
+        nu, rho = float(st["nu"].reshape(-1)[0]), float(st["rho"].reshape(-1)[0])
+        xi, tau = st["xi"][:, 0].double().numpy(), st["tau"][:, 0].double().numpy()
+        shift = tensor_value(st["survival_shifts"])[:, 0].double().numpy() if "survival_shifts" in st.dag else np.zeros_like(xi)
+        s = T.numpy() - tau
+        nup = nu * np.exp(-(xi + shift / rho))
+        log_s = -np.power(np.maximum(s, 0.0) / nup, rho)
+        log_h = np.log(rho / nup) + (rho - 1.0) * np.log(s / nup)
+        want = -(log_s + np.where(obs.numpy(), log_h, 0.0))
+        got = tensor_value(st["nll_attach_event_ind"]).double().numpy().reshape(-1)
+        evals += 1
+        distinct.add(rep)
+        if not np.allclose(got, want, rtol=2e-4, atol=1e-5):
+            k = int(np.argmax(np.abs(got - want)))
+            violations.append(dict(key="joint model: nll_attach_event_ind is not minus the right-censored Weibull log-density with the documented re-parametrisation",
+                                   individual=k, observed=bool(obs[k]), got=float(got[k]), want=float(want[k])))
+            break
+        samples.append(dict(nu=nu, rho=rho, n_observed=int(obs.sum()), n_censored=int((~obs).sum())))
+    return dict(evaluations=evals, distinct_nontrivial=len(distinct),
+                rule="one evaluation = the event attachment of every individual of one real joint-model state against a numpy reference",
+                samples=samples[:2], violations=violations[:60], bound=dict(states=2 if tier == "quick" else 10, exhaustive=False, seed=seed))
+
+
+STANDINS = STANDINS + [standin_joint_wiring]
